@@ -14,7 +14,7 @@ R6 refinement axes: pixel column 0 is fed from axis-1 (x) samples only, column 1
 """
 import ast
 
-from sa import sym
+from sa import sym, boolalg
 from sa.sym import show, num, num_value, atoms_of
 from sa.model import dotted, own_calls, own_nodes, callee_attr
 from .toastgeom import level1_table
@@ -142,41 +142,42 @@ def _r2_pruning(run):
     r = ev.run(f.node)
     tile, depth, filt = (("sym", p) for p in f.params()[:3])
     n_t = ("attr", ("attr", tile, "pos"), "n")
-    allowed = []
     bad = []
-    for pc, t, n in r.returns:
-        conds = [c for c in pc if c[0] != "loop"]
-        last = conds[-1] if conds else None
-        if last is None:
-            bad.append((n, "unconditional return"))
-            continue
-        c, pol = last
-        if pol and c == ("op", "cmp:Gt", (n_t, depth)):
-            allowed.append("depth")
-        elif pol and c[0] == "op" and c[1] == "and" and ("op", "not", (("call", filt, (tile,), ()),)) in c[2] \
-                and all(x == ("op", "not", (("call", filt, (tile,), ()),)) or (x[0] == "op" and x[1].startswith("cmp:") and n_t in x[2]) for x in c[2]):
-            allowed.append("filter")
-        elif pol and c == ("op", "not", (("call", filt, (tile,), ()),)):
-            allowed.append("filter")
-        else:
-            bad.append((n, "subtree dropped under %s%s" % ("" if pol else "not ", show(c)[:120])))
+    flt = ("call", filt, (tile,), ())
+    spec = ("op", "or", (sym.cmp("Gt", n_t, depth), ("op", "and", (sym.cmp("Gt", n_t, sym.ONE), ("op", "not", (flt,))))))
+    pruned = [boolalg.conj(pc) for pc, t, n in r.returns]
+    undec = None
+    for (pc, t, n), c in zip(r.returns, pruned):
+        imp = boolalg.implies(c, spec)
+        if imp is None:
+            undec = (n, c)
+        elif not imp:
+            bad.append((n, "subtree dropped under %s" % show(c)[:160]))
     loops = [n for n in own_nodes(f.node) if isinstance(n, ast.For) and isinstance(n.iter, ast.Call) and dotted(n.iter.func) == "_div4"]
     sliced = [n for n in own_nodes(f.node) if isinstance(n, ast.For) and isinstance(n.iter, ast.Subscript)]
     if sliced:
         bad.append((sliced[0], "only part of the children is descended into (%s)" % ast.unparse(sliced[0].iter)))
+    # the descent itself must not be conditional on anything else
+    desc = [e for e in r.events if e.kind == "call" and e.term[1] == ("sym", f.name)]
+    for e in desc:
+        c = boolalg.conj(e.pc)
+        if boolalg.implies(("op", "not", (spec,)), c) is False:
+            bad.append((e.node, "the recursive descent only happens under %s" % show(c)[:160]))
     if bad:
         for n, msg in bad:
             run.violated("C07.R2", f, n, "filtered descent: " + msg + " -- a subtree may only be pruned when the filter rejected its root (or below the requested depth)",
                          kind="pruning")
-    elif "filter" in allowed and "depth" in allowed and loops:
-        run.holds("C07.R2", f, None, "subtree pruned only if n > depth or filter(tile) is false; all children of _div4 visited")
+    elif undec:
+        run.undecided("C07.R2", f, undec[0], "pruning condition %s not comparable" % show(undec[1])[:120], kind="pruning-shape")
+    elif loops and desc:
+        run.holds("C07.R2", f, None, "subtree pruned only if n > depth or (n > 1 and filter(tile) is false); all children of _div4 visited")
     else:
-        run.undecided("C07.R2", f, None, "pruning conditions not recognised (%s)" % allowed, kind="pruning-shape")
+        run.undecided("C07.R2", f, None, "descent through _div4 not recognised", kind="pruning-shape")
     # filter test applies to the tile being pruned (n > 1 exemption: level-1 tiles tested by the caller)
     g = project.fn(T + ".generate_tiles_filtered")
     rg = ev.run(g.node)
     pcs = [e for e in rg.events if e.kind == "call" and e.term[1] == ("sym", "_postfix_corner")]
-    ok = len(pcs) == 1 and [c for c in pcs[0].pc if c[0] != "loop"] == [(("call", ("sym", "filter"), (pcs[0].term[2][0],), ()), True)]
+    ok = len(pcs) == 1 and pcs[0].term[2] and boolalg.implies(("call", ("sym", "filter"), (pcs[0].term[2][0],), ()), boolalg.conj(pcs[0].pc)) is True
     if ok:
         run.holds("C07.R2", g, pcs[0].node, "level-1 tiles are skipped only when the filter rejects them")
     else:
@@ -212,10 +213,17 @@ def _r3_chunk(run):
     iy_t, ix_t = bases[0], bases[1]
     ms = show(mask)
     # mask must constrain both ix and iy on both sides
-    need = [("cmp:GtE", ix_t, "0"), ("cmp:Lt", ix_t, None), ("cmp:GtE", iy_t, "0"), ("cmp:Lt", iy_t, None)]
     cmps = [x for x in atoms_of(mask) if x[0] == "op" and x[1].startswith("cmp:")]
-    have = {(c[1], c[2][0]) for c in cmps}
-    missing = [(op, t) for op, t, _ in need if (op, t) not in have]
+    have = set()
+    for c in cmps:
+        if c[1] == "cmp:LtE" and c[2][0] == sym.ZERO:
+            have.add(("cmp:GtE", c[2][1]))
+        elif c[1] == "cmp:Lt" and num_value(c[2][0]) == -1:
+            have.add(("cmp:GtE", c[2][1]))
+        elif c[1] == "cmp:Lt":
+            have.add(("cmp:Lt", c[2][0]))
+    need = [("cmp:GtE", ix_t), ("cmp:Lt", ix_t), ("cmp:GtE", iy_t), ("cmp:Lt", iy_t)]
+    missing = [(op, t) for op, t in need if (op, t) not in have]
     # upper bounds are the sizes of the matching axes: ny, nx = data.shape[:2]
     if missing:
         run.violated("C07.R3", outer, fills[0].node, "validity mask %s does not bound %s: pixels outside the chunk would index the chunk array "
@@ -323,7 +331,9 @@ def _r4_bounds(run):
     # (d) _image_bounds returns (lon_min, lon_max, lat_min, lat_max) with matching extreme finders
     ib = project.fn(S + ".WcsSampler._image_bounds")
     run.note_func(ib)
-    rb = ev.run(ib.node)
+    ev_nc = sym.make_evaluator(project, S, [])
+    ev_nc.inline_closures = False
+    rb = ev_nc.run(ib.node)
     if len(rb.returns) == 1 and rb.returns[0][1][0] == "tuple" and len(rb.returns[0][1][1]) == 4:
         got = [show(x) for x in rb.returns[0][1][1]]
         want_s = ["<closure refine_lon>(np.argmin)", "<closure refine_lon>(np.argmax)", "<closure refine_lat>(np.argmin)", "<closure refine_lat>(np.argmax)"]
@@ -447,6 +457,9 @@ def _axis_deps(val, c1, c2):
             return
         if t[0] == "call" and show(t[1]) in ("np.zeros", "np.ones", "np.empty"):
             return
+        if t[0] == "call" and show(t[1]) in ("np.full", "np.repeat") and len(t[2]) >= 2:
+            # np.full(count, value) / np.repeat(value, count): only the value is a coordinate
+            return visit(t[2][1] if show(t[1]) == "np.full" else t[2][0])
         if t[0] == "new":
             return visit(t[2])
         for x in t[1:] if isinstance(t[0], str) else t:
